@@ -381,6 +381,14 @@ func (g *gen) batch(t *rapid.T, m *model) []item {
 	live := m.liveMsgs()
 	items := make([]item, 0, n)
 
+	// one batch in six names ONE unknown mailbox in several of its elements (a mailbox the connector has not announced
+	// yet, or has deleted, usually holds more than one message of a batch)
+	var shared imap.MailboxID
+
+	if n >= 2 && uni(t, "sharedUnknownBox", 6) == 0 {
+		shared = g.bogusBox()
+	}
+
 	for i := 0; i < n; i++ {
 		var it item
 
@@ -403,6 +411,14 @@ func (g *gen) batch(t *rapid.T, m *model) []item {
 			it.boxes = append(it.boxes, g.bogusBox())
 		case 1:
 			it.boxes = append(it.boxes, recoveryRID)
+		}
+
+		if shared != "" && (i < 2 || rapid.Bool().Draw(t, "inSharedUnknown")) {
+			if rapid.Bool().Draw(t, "sharedFirst") {
+				it.boxes = append([]imap.MailboxID{shared}, it.boxes...)
+			} else {
+				it.boxes = append(it.boxes, shared)
+			}
 		}
 
 		items = append(items, it)
